@@ -49,6 +49,9 @@ class Gen:
         self.ukind = {}      # user fd id -> harness kind
         self.peer = {}       # sockpair ends
         self.polled = set()
+        self.stdio_placed = set()   # user descriptors sitting on kernel numbers 0/1
+        self.forked = 0          # number of fork ops so far (the child carries the program on)
+        self.used_async = False  # the thread pool does not survive fork(): no async request before or after one
         self.inherited = set()   # handles handed to a child with UV_INHERIT_STREAM (their socket became blocking)
         self.query()
 
@@ -87,7 +90,7 @@ class Gen:
                 and (kinds is None or self.ukind[int(f[1:])] in kinds)]
     def quiet_loop(self):
         """nothing would happen in an extra uv_run: async fs requests turn the loop until their callback ran"""
-        return not self.busy() and not any(h["st"] == "closing" or (h["kind"] == "proc" and h["st"] == "live") or
+        return not self.forked and not self.busy() and not any(h["st"] == "closing" or (h["kind"] == "proc" and h["st"] == "live") or
                                            (h["st"] == "live" and h["connected"]) for h in self.hs)
     def busy(self):
         return any(h["st"] == "live" and (h["pending"] > 0 or h["inflight"] > 0) for h in self.hs)
@@ -111,6 +114,11 @@ class Gen:
         b = self.bias
         if b and rng.below(3) == 0:
             r = {"spawn": 95, "accept": 40, "ipc": 60, "stdio": 20, "fs": 88, "bind": 30, "misc": 92}.get(b, r)
+        # fork(): the child calls uv_loop_fork and runs the rest of the program (no spawned child still alive, no thread pool)
+        if (self.forked < 2 and not self.used_async and rng.below(8 if b == "fork" else 45) == 0 and not self.busy()
+                and not any(h["kind"] == "proc" and h["st"] in ("live", "closing") for h in self.hs)):
+            self.forked += 1
+            return self.emit("fork")
         if not self.loop:
             if rng.below(4) == 0:
                 return self.emit(rng.choice(["uv_pipe 1 0", "uv_socketpair 0 0", "ufd pipe"]))
@@ -128,6 +136,8 @@ class Gen:
             if (b == "stdio" or rng.below(4) == 0) and not any(self.own.get(f"f{i}") for i in ()):
                 at = " at=" + str(rng.below(2))
             new = self.emit(f"ufd {kind}{at}")
+            if at and new:
+                self.stdio_placed.add(new[0])
             for n in new:
                 self.ukind[n] = kind
             if kind == "sockpair" and len(new) == 2:
@@ -255,11 +265,13 @@ class Gen:
             v = rng.below(6)
             if v < 3:
                 asy = " async" if self.quiet_loop() and rng.below(2) == 0 else ""
+                self.used_async = self.used_async or bool(asy)
                 self.emit(*self.maybe_fail([("open", 1, [24, 13])]), "fs_open " + rng.choice(["ok", "creat", "missing"]) + asy)
             elif v == 3:
                 self.emit("fs_mkstemp")
             elif v == 4:
                 asy = " async" if self.quiet_loop() and rng.below(2) == 0 else ""
+                self.used_async = self.used_async or bool(asy)
                 self.emit(*self.maybe_fail([("open", 1, [24]), ("open", 2, [24, 13])], 3), "fs_copyfile " +
                           rng.choice(["ok", "missing", "same", "link", "exists", "excl", "ficlone"]) + asy)
             else:
@@ -343,6 +355,9 @@ class Gen:
                         self.inherited.add(pick)
                         return f"s{pick}"
                 us = [f for f in self.users() if f not in self.polled and self.ukind.get(f) != "file"]
+                low = [f for f in us if f in self.stdio_placed]      # source number below the slot index (2>&1 and the like)
+                if low and rng.below(2):
+                    return f"f{rng.choice(low)}"
                 return f"f{rng.choice(us)}" if us else "i"
             c0, c2 = cont(), cont()
             c3 = cont() if rng.below(3) == 0 else "-"
@@ -398,6 +413,9 @@ def run_case(ctx, exe, prog, idx):
     d = ctx.tmp / f"case{idx}"
     shutil.rmtree(d, ignore_errors=True); d.mkdir()
     rc, out, err = ctx.run(exe, [str(d)], text=prog, timeout=30, env={"ASAN_OPTIONS": "detect_leaks=0:abort_on_error=0:exitcode=99"})
+    if rc == -999:        # a time-out on a loaded machine is not a verdict: once more, alone, with a generous limit
+        shutil.rmtree(d, ignore_errors=True); d.mkdir()
+        rc, out, err = ctx.run(exe, [str(d)], text=prog, timeout=240, env={"ASAN_OPTIONS": "detect_leaks=0:abort_on_error=0:exitcode=99"})
     shutil.rmtree(d, ignore_errors=True)
     return rc, out, err
 
@@ -532,7 +550,7 @@ def run(ctx):
     n = ctx.scale(150, 1500)
     maxops = ctx.scale(28, 45)
     seeds = [ctx.rng.fork() for _ in range(n)]
-    biases = [None, None, "spawn", "accept", "ipc", "stdio", "fs", "bind", "misc"]
+    biases = [None, None, "spawn", "accept", "ipc", "stdio", "fs", "bind", "misc", "fork"]
     def mk(i):
         return Gen(ctx, seeds[i], seeds[i].range(8, maxops), biases[i % len(biases)]).build()
     def go(ip):
